@@ -36,10 +36,32 @@ def run(ctx, prop, want_ops, num_quick, num_thorough):
     gcfg = cfg.replace(".cfg", "_sim.cfg")
     with open(os.path.join(ctx.work, gcfg), "w") as fh:
         fh.write("\n".join(l for l in open(os.path.join(ctx.work, cfg)).read().split("\n") if not l.startswith(("PROPERTY", "INVARIANT"))))
-    behs, _ = tlc.simulate(ctx.work, "MC_TrackerTree", gcfg, num=num * 6, depth=9, seed=ctx.seed + 23, timeout=900, tag="tt")
+    behs, _ = tlc.simulate(ctx.work, "MC_TrackerTree", gcfg, num=num * 25, depth=9, seed=ctx.seed + 23, timeout=900, tag="tt")
     cases = []
     seen = set()
+
+    def rare_first(b):
+        # behaviours exercising the rare combinations first: a tracked file that vanished and a tracker that then has to sweep
+        # (the last holder dies), in the strict configuration
+        ops = [str(st["last"][0]) for _, st in b[1:]]
+        strict = bool(b[0][1]["conf"]["strict"])
+        v = False
+        for k, (_, st) in enumerate(b[1:]):
+            if str(st["last"][0]) == "vanish":
+                i = int(st["last"][1]) - 1
+                others = [r for j, r in enumerate(st["res"]) if j != i and r["registered"] and r["exists"] and r["tracker"] == st["res"][i]["tracker"]]
+                if others and "die" in ops[k:]:
+                    v = True
+        return (0 if (v and strict and prop == "C13") else 1 if (v and prop == "C13") else 2)
+    behs = sorted(behs, key=rare_first)
+    quota = {0: num // 4, 1: num // 8}
+    used = {0: 0, 1: 0}
     for b in behs:
+        r = rare_first(b)
+        if r in quota:
+            if used[r] >= quota[r]:
+                continue
+            used[r] += 1
         ops = [str(st["last"][0]) + (":" + str(st["last"][2]) if str(st["last"][0]) == "track" else "") for _, st in b[1:]]
         if not any(o in want_ops for o in ops) or len(b) < 4:
             continue
